@@ -94,7 +94,7 @@ def run_tlc(module, consts, invariants=(), name=None, workers=8, timeout=1800, e
     cmd += [os.path.join(SPEC, module + ".tla")]
     env = dict(os.environ)
     # TLC/SANY scratch directories go under the run's own work directory (removed below), not /tmp
-    jtmp = os.path.join(d, "jtmp")
+    jtmp = os.path.join(WORK, "jtmp", re.sub(r"\W+", "_", name))      # (no spaces: JAVA_TOOL_OPTIONS is split on them)
     os.makedirs(jtmp, exist_ok=True)
     env["JAVA_TOOL_OPTIONS"] = (f"-Xmx{heap} -Xss512m -Djava.io.tmpdir={jtmp}"
                                 + (f" -Dtlc2.tool.queue.IStateQueue={queue}" if queue else ""))
